@@ -490,3 +490,19 @@ def run(ctx: Ctx, rep: Report, tier: str):
     alias(rep, ["C15.R2"], "C08.R7", "the commit of an applied event runs inside the same lock region as the state change (C15.R2): the dirty set is never "
           "iterated by one thread while the other adds to it, so no dirty entry is dropped from a commit", 1, lambda: C15(ctx, rep).r2(),
           keep=lambda i: "_process_event" in i.key)
+    from rules.common import codec_keeps_tuples
+    rep.rule("C08.R8", "the codec round-trips value TYPES too: deserialize calls msgpack.loads(..., use_list=False), so tuple hashes reload as tuples", 1)
+    codec_keeps_tuples(ctx, rep, "C08.R8")
+    rep.rule("C08.R9", "forget() leaves nothing dirty behind: SyncState.forget resets the dirty set together with the indexes and the rows it deletes (C11.X10) - otherwise the "
+             "next commit updates a deleted row and every later commit fails", 1)
+    fg8 = ctx.prog.func("SyncState.forget")
+    reset8 = set()
+    for n8 in ctx.own_nodes(fg8):
+        if isinstance(n8, ast.Attribute) and isinstance(n8.ctx, ast.Store) and isinstance(n8.value, ast.Name) and n8.value.id == fg8.self_name:
+            reset8.add(n8.attr)
+        if isinstance(n8, ast.Call) and isinstance(n8.func, ast.Attribute) and n8.func.attr == "clear" and isinstance(n8.func.value, ast.Attribute):
+            reset8.add(n8.func.value.attr)
+    rep.check("C08.R9", "forget|_dirtyset", fg8, "_dirtyset" in reset8, "dirty set reset", "SyncState.forget deletes every row but keeps the dirty set: the next commit tries to update a deleted row")
+    from rules.C06 import C06 as _C06b
+    alias(rep, ["C06.R5"], "C08.R10", "what the loader rebuilds equals what was live: every stored entry is re-indexed and re-queued exactly when its persisted `changed` flag is set "
+          "(C06.R5) - a discarded entry that a new event re-queued is still queued after a restart", 4, lambda: _C06b(ctx, rep).r5())
